@@ -102,9 +102,11 @@ func Mul(x, y Number) Number {
 
 // Inv returns the dual inverse of d.
 func Inv(d Number) Number {
+	// The dual part is -r⁻¹dr⁻¹ = -r⁻¹dr(rr)⁻¹; r and d do not commute in general.
+	ri := quat.Inv(d.Real)
 	return Number{
-		Real: quat.Inv(d.Real),
-		Dual: quat.Scale(-1, quat.Mul(d.Dual, quat.Inv(quat.Mul(d.Real, d.Real)))),
+		Real: ri,
+		Dual: quat.Scale(-1, quat.Mul(quat.Mul(quat.Mul(ri, d.Dual), d.Real), quat.Inv(quat.Mul(d.Real, d.Real)))),
 	}
 }
 
